@@ -150,7 +150,7 @@ class Count(Factory, Container):
             if shape[0] is not None:
                 assert weights.shape[0] == shape[0]
 
-            if self.transform is identity:
+            if self.transform == identity:
                 self.entries += float(weights.sum())
             else:
                 t = self.transform(weights)
@@ -160,7 +160,7 @@ class Count(Factory, Container):
                 self.entries += float(t.sum())
 
         elif shape[0] is not None:
-            if self.transform is identity:
+            if self.transform == identity:
                 self.entries += weights * shape[0]
             else:
                 t = self.transform(numpy.array([weights]))
@@ -169,7 +169,7 @@ class Count(Factory, Container):
                 self.entries += float(t[0])
 
         elif isinstance(weights, (int, float, numpy.number)):
-            if self.transform is identity:
+            if self.transform == identity:
                 self.entries += float(weights)
             else:
                 self.entries += self.transform(weights)
